@@ -347,19 +347,17 @@ Proof.
     apply B2. apply in_all_entries. eauto.
 Qed.
 
-(** the reported max time is max(0, real max): [maxTime] starts at 0 in UnmarshalBinary *)
-Lemma max_time_spec all : Forall wf_ents all -> ix_maxtime (index_of all) = Z.max 0 (sp_max_time all).
+(** the reported max time is the real max (maxTime starts at MinInt64 in UnmarshalBinary) *)
+Lemma max_time_spec all : Forall wf_ents all -> ix_maxtime (index_of all) = sp_max_time all.
 Proof.
   intro Hwf. rewrite Forall_forall in Hwf. cbn [index_of ix_maxtime]. unfold sp_max_time.
-  destruct (fold_max_spec last_max all 0%Z) as [A1 [A2 A3]].
+  destruct (fold_max_spec last_max all MinInt64) as [A1 [A2 A3]].
   destruct (fold_max_spec emax (all_entries all) MinInt64) as [B1 [B2 B3]].
   cbv zeta in *. apply Z.le_antisymm.
-  - destruct A3 as [->|[ik [Hik ->]]]; [lia|].
+  - destruct A3 as [->|[ik [Hik ->]]]; [exact B1|].
     destruct (Hwf ik Hik) as [Hne _]. destruct (last_max_in ik Hne) as [e [He ->]].
-    assert (emax e <= fold_left (fun m x => Z.max m (emax x)) (all_entries all) MinInt64)%Z; [|lia].
     apply B2. apply in_all_entries. eauto.
-  - apply Z.max_lub; [exact A1|].
-    destruct B3 as [->|[e [He ->]]]; [unfold MinInt64; lia|].
+  - destruct B3 as [->|[e [He ->]]]; [exact A1|].
     apply in_all_entries in He as [ik [Hik He]]. specialize (A2 ik Hik).
     destruct (Hwf ik Hik) as [_ Hb]. specialize (Hb e He). lia.
 Qed.
